@@ -31,6 +31,11 @@ CHECKS["C08"] = dict(
    text="Theorems in coq/theories/Props/C08.v over an abstract commutative ring, for every register size, every string with factors on distinct in-range qubits stored in ANY order (the HashMap is an association list under an arbitrary permutation), every coefficient and amplitude vector: apply returns coefficient * prod_q sigma_q[bit_q k][bit_q(k xor mask)] * psi[k xor mask] (each factor phase proved to be the single non-zero entry of that row of the 2x2 Pauli matrix); the result is independent of the order; an out-of-range factor is an error; SumOp.apply is the term-wise sum (zero vector when empty); expectation_value = inner_product(state, apply(state)); scaling / adding strings and sums commute with application. The correspondence runs every string on 1-3(4) qubits and random ones to 7(10), sums of 0-12(40) terms, all arithmetic overloads (read back and compared with the model's transform) through the real crate, with the model run in the order the real map iterated and the order-free Spec, and each string rebuilt in 4 other insertion orders in fresh maps.",
    note="Not yet proved: 'expectation is real for real coefficients' and hermitian_conjugate adjointness (both are exercised numerically by the correspondence through complex coefficients / hconj read-back). Float rounding not modelled (1e-12).",
    design="6 C08")
+CHECKS["C09"] = dict(
+   technique="Coq proof (apply_exp = cosh I + sinh P_ops with P_ops an involution; operator power series = scalar even/odd series for every truncation; group law; exp(0)=I; neg_i_dt guard and inner-product preservation) + differential correspondence inside coqc against an in-Coq Taylor-series reference in exact fixed-point arithmetic",
+   text="Theorems in coq/theories/Props/C09.v over an abstract commutative ring, all strings (distinct in-range qubits, any storage order), coefficients, states and sizes: apply_exp/apply_exp_factor return psi*cosh(alpha) + (P_ops psi)*sinh(alpha) (empty string: the scalar e^alpha); P_ops is an involution; for EVERY truncation N and coefficient sequence c_j the operator series sum c_j (alpha P)^j psi equals (even part) psi + (odd part) P psi, i.e. the exponential series is the cosh/sinh series component-wise; exp(aP)exp(bP)=exp((a+b)P) from the addition formulas; exp(0P)=I; apply_exp_neg_i_dt refuses any coefficient whose imaginary part is not 0.0 and, for a real one (cosh(-ix)=cos x, sinh(-ix)=-i sin x, c*c+s*s=1), preserves inner products. The correspondence runs the three entry points through the real crate and compares with the model and with a Spec whose cosh/sinh/exp come from a Taylor series evaluated in exact integer fixed-point arithmetic inside Coq (libm-free); the libm values fed to the model are validated against the same series; group law and exp(0)=I are evaluated on the implementation's outputs.",
+   note="libm accuracy for |alpha| > 60 (overflow region) is observed, not judged. The limit statement (partial sums converge to Coq's cosh/sinh over R) is not formalised; the component-wise series identity is.",
+   design="6 C09")
 NOT_YET = {}
 
 def main():
